@@ -329,6 +329,16 @@ theorem PA_field (e : Expr) (ih : PA e) : PA (.field e) := by
   apply from_primary _ _ _ _ _ _ _ hf
   exact primary_field e ih m rest (by omega) hcan.2 (cl_false_lt pc _ k hf hcan.1)
 
+theorem PA_namedField (e : Expr) (ih : PA e) : PA (.namedField e) := by
+  intro n pc k rest hd' hcan hf
+  simp only [canon, Bool.and_eq_true, decide_eq_true_eq] at hcan
+  simp only [depth] at hd'
+  obtain ⟨m, rfl⟩ : ∃ m, n = m + 1 := ⟨n - 1, by omega⟩
+  apply from_primary _ _ _ _ _ _ _ hf
+  have h1 : (ps (m+2)).primary (render e ++ rest) = .ok (e, rest) :=
+    ih m false 14 rest (by omega) hcan.2 (cl_false_lt pc _ k hf hcan.1)
+  simp only [render, List.cons_append, primaryF, h1, bindR_ok]
+
 /-- closed operands are read by `primary()` whatever follows (except `[` after a name) -/
 def PP (e : Expr) : Prop :=
   ∀ (n : Nat) (rest : List Tok), depth e ≤ n → closed e = true → canon false 14 e = true → hd rest ≠ .lbracket →
@@ -598,6 +608,7 @@ theorem canon_up (pc : Bool) (h : Nat) (e : Expr) (hl : LoopLevel h) (hc : canon
     have : h ≠ 8 ∧ h ≠ 9 ∧ h ≠ 10 := by omega
     exact ⟨by rcases hl with rfl | rfl | rfl | rfl | rfl | rfl <;> omega, hc.2⟩
   | none => simp [canon] at hc
+  | namedField e => simp only [canon, Bool.and_eq_true, decide_eq_true_eq] at hc ⊢; exact ⟨by omega, hc.2⟩
   | incr p d e =>
     cases p
     · cases e <;> simp only [canon, Bool.and_eq_true, decide_eq_true_eq, Bool.false_eq_true] at hc ⊢ <;>
@@ -690,6 +701,9 @@ theorem parse_all' (e : Expr) : PAll e := by
   | index a i ih =>
     exact ⟨PA_index a i ih.1, PB_of_PA' _ (PA_index a i ih.1) (by intro _ _ _ h; cases h) (by intro _ _ h; cases h),
       PX_index a i ih.1⟩
+  | namedField e ih =>
+    exact ⟨PA_namedField e ih.1, PB_of_PA' _ (PA_namedField e ih.1) (by intro _ _ _ h; cases h) (by intro _ _ h; cases h),
+      PX_trivial _ rfl rfl⟩
   | none =>
     exact ⟨by intro n pc k rest _ hc; simp [canon] at hc, by intro n pc h Y res _ _ hc; simp [canon] at hc, PX_trivial _ rfl rfl⟩
   | getline c t f ihc iht ihf =>
